@@ -117,7 +117,36 @@ def assetTotalsDroppingNegative (cs : List Expr) : List (Bytes × Bytes × Int) 
     | _, acc => acc
   go cs []
 
+/-- C08 from the source: one expression as the redeemer of an input, a mint and a withdrawal gives three redeemers
+with the same data. -/
+def judgeLangRedeemers (j : Json) : R Verdict := do
+  let i ← nat (← field j "i")
+  let gen ← str (← field j "gen")
+  let obs ← field j "obs"
+  let key := fnv ((fieldD j "expr").compress ++ (fieldD j "mainnet").compress)
+  match obs.getObjVal? "ok" with
+  | .error _ =>
+    let cls := (fieldD obs "class").getStr?.toOption.getD "?"
+    -- the front end or the resolution refuses the program: nothing to compare (a panic is C14's business, still said)
+    let spec := if cls.startsWith "panic" then ["redeemer:panic:" ++ cls] else []
+    return { i, corr := [], spec, key, tags := [gen, "refused:" ++ (cls.takeWhile (· != ':')).toString], nt := false }
+  | .ok ok =>
+    let payload ← hex (← field ok "payload")
+    match Conway.readTx payload with
+    | none => return { i, corr := [], spec := ["payload-unreadable"], key, tags := [gen], nt := true }
+    | some (atx, _, _) =>
+      let mut spec : List String := []
+      let tagsSeen := (atx.redeemers.map (·.1.1)).eraseDups
+      if atx.redeemers.length != 3 || !([0, 1, 3].all tagsSeen.contains) then
+        spec := spec ++ ["redeemer-count:" ++ toString atx.redeemers.length]
+      match atx.redeemers with
+      | (_, d) :: rest =>
+        if !(rest.all fun r => r.2 == d) then spec := spec ++ ["redeemer-data-differs-between-block-kinds"]
+      | [] => pure ()
+      return { i, corr := [], spec, key, tags := [gen, "compiled"], nt := true }
+
 def judge (prop : String) (j : Json) : R Verdict := do
+  if (fieldD j "probe").compress == "\"lang-redeemers\"" then return ← judgeLangRedeemers j
   let i ← nat (← field j "i")
   let gen ← str (← field j "gen")
   let tx ← parseTx (← field j "tx")
